@@ -29,7 +29,7 @@ RECURSIVE SumSeq(_)
 SumSeq(s) == IF s = <<>> THEN 0 ELSE s[1] + SumSeq(Tail(s))
 Arg(m) == IF m = -1 THEN NoLimit ELSE m
 
-TInit == Init /\ l = 1 /\ TLCSet(1, 0)
+TInit == Init /\ l = 1
 
 TReset == /\ Log[l].e = "Reset"
           /\ ends' = <<>> /\ popped' = 0 /\ sbuf' = FALSE /\ soff' = 0 /\ wire' = <<>> /\ rcv' = R0 /\ delivered' = <<>> /\ err' = FALSE
@@ -41,11 +41,11 @@ TIn   == /\ Log[l].e = "In" /\ InMC(Arg(Log[l].m), SumSeq(Log[l].r))
          /\ last'.r = Log[l].r /\ last'.ret = Log[l].ret /\ last'.dl = Log[l].dl
 TEnd  == Log[l].e = "End" /\ Quiet /\ Len(delivered) = NFrames /\ UNCHANGED vars
 
+\* the whole log has been explained: say so (cheaper than having TLC print a 10^4-state counterexample to "l <= N")
+TDone == l = N + 1 /\ last.a = "-" /\ PrintT("@@\"accepted\"") /\ l' = N + 2 /\ UNCHANGED vars
 TNext == \/ (Ack /\ UNCHANGED l)
          \/ (l <= N /\ last.a = "-" /\ (TReset \/ TSend \/ TOut \/ TIn \/ TEnd) /\ l' = l + 1)
+         \/ TDone
 TSpec == TInit /\ [][TNext]_<<vars, l>>
 
-NotAccepted == l <= N
-Track == TLCSet(1, IF TLCGet(1) > l THEN TLCGet(1) ELSE l)
-Report == PrintT(<<"maxline", TLCGet(1), "of", N>>)
 =============================================================================
